@@ -111,18 +111,26 @@ Theorem triangulate_fan_boundary :
 Proof. exact fan_boundary_. Qed.
 Print Assumptions triangulate_fan_boundary.
 
-(** decompose_column's (7, 3) case.  The faithful model refutes positivity/conformity without a
-    side condition: a weakly convex heptagon whose straight nodes are exactly [straight] (three of
-    them, two adjacent) for which the chosen subdivision has a child of zero area -- the
-    witness (0,0),(1,0),(3,0),(4,0),(4,4),(2,4),(0,4) is the one replayed on the implementation
-    (finding decompose_columns:7gon-3straight-adjacent).  The area identity above still holds there. *)
-Theorem decompose_7_3_refuted :
+(** decompose_column's (7, 3) case.  [d73_guarded] is read from the AST: does the source test that
+    the three straight nodes alternate from the start node before using the special subdivision
+    (proposed repair C11-7gon-3straight-adjacent) or not (as upstream).  WITHOUT the guard the
+    faithful model refutes positivity/conformity: a weakly convex heptagon whose straight nodes
+    are exactly [straight] (three of them, two adjacent) for which the chosen subdivision has a
+    child of zero area -- the witness (0,0),(1,0),(3,0),(4,0),(4,4),(2,4),(0,4) is the one replayed on
+    the implementation (finding decompose_columns:7gon-3straight-adjacent).  WITH the guard every
+    set of three straight nodes either alternates or gets the triangulation fan (which tiles:
+    decompose_centre_cases_tile), and the witness gets the fan. *)
+Theorem decompose_7_3_refuted : d73_guarded = false ->
   exists (cs : list pt) (c : pt) (straight : list nat) (start : nat) (e : entry) (ch : child),
     length cs = 7 /\ weakly_convex_ccw cs /\ (0 < poly_area cs)%R /\
     (forall i, i < 7 -> (In i straight <-> straight_at cs i)) /\
     decompose_model 7 straight = DSub start e /\ In ch e /\ child_area cs c start ch = 0%R.
 Proof. exact decompose_7_3_refuted_. Qed.
 Print Assumptions decompose_7_3_refuted.
+Theorem decompose_7_3_guarded : d73_guarded = true ->
+  forallb d73_case_ok (sublists (seq 0 7)) = true /\ decompose_model 7 [1; 2; 5] = DSub 0 (fan 7).
+Proof. exact decompose_7_3_guarded_. Qed.
+Print Assumptions decompose_7_3_guarded.
 (** guarded version: when the three straight nodes lie on three different sides of a strictly
     convex quadrilateral A B C D (at A+t0(B-A), B+t1(C-B), C+t2(D-C)), then for every rotation r
     of the node numbering every new column has positive signed area *)
